@@ -23,6 +23,15 @@ def _eps_of(values):
     return e
 
 
+def _tiny_of(values):
+    """Smallest normal number of the coarsest floating type among the values."""
+    t = 2.2250738585072014e-308
+    for v in values:
+        if isinstance(v, np.floating):
+            t = max(t, float(np.finfo(type(v)).tiny))
+    return t
+
+
 def _is_exactnum(v):
     return isinstance(v, (Exact, Fraction, int)) and not isinstance(v, bool)
 
@@ -553,7 +562,12 @@ class C16Oracle(BaseOracle):
                 if exact:
                     bad = lhs != rhs
                 else:
-                    bad = abs(float(lhs) - float(rhs)) > 16 * EPS * max(abs(float(lhs)), abs(float(rhs))) + 1e-300
+                    # a quotient below the smallest normal number of its type carries an ABSOLUTE error of one
+                    # subnormal spacing (tiny*eps) instead of a relative one
+                    tiny = _tiny_of(vals + list(norm.values()))
+                    err_f = max(EPS * abs(float(norm[f])), tiny * EPS)
+                    err_p = max(EPS * abs(float(norm[piv])), tiny * EPS)
+                    bad = abs(float(lhs) - float(rhs)) > 16 * (abs(float(raw[piv])) * err_f + abs(float(raw[f])) * err_p) + 1e-300
                 if bad:
                     return self.v("ratios-not-preserved", "mode=%s raw=%r normalised=%r (features %r, %r)"
                                   % (mode, raw, norm, f, piv), explainer=k, mode=mode)
